@@ -18,7 +18,7 @@ RULE = ('a real EventMgr on a temp root and the in-memory ZooKeeper holding /pla
         'tempfile.NamedTemporaryFile / file close give the syscall boundaries; at EVERY such point of a write (a) the '
         'directory is read the way another process - or a crash at that instant - sees it: each non-dot file must be a '
         'complete old or complete new manifest; (b) in a second pass an OSError is raised there: afterwards no partial '
-        'non-dot file and no temp file of that write is left. Non-trivial: a failpoint strictly inside a write of a manifest '
+        'non-dot file and no temp file of that write is left; (c) in a third pass, for a failing syscall boundary, LINE events are switched on globally at the failure and the directory is read at every statement executed anywhere until the call ends (what is done about a failure - clean-up, retry, fall-back - must not expose a partial manifest either). Non-trivial: a failpoint strictly inside a write of a manifest '
         'larger than the stdio buffer, or a convergence case with stale+missing+outdated entries; distinct by '
         '(case, app, point). 1 case in 4 stores the manifests as byte-identical legacy YAML (replicas of one application). '
         '(3) service loop: the real EventMgr.run() with its presence DataWatch and placement ChildrenWatch; time.sleep '
@@ -37,7 +37,7 @@ BUDGET = {'quick': (22, 20.0), 'thorough': (900, 260.0)}
 REQUIRED_REACH = {'*': ['sync_calls', 'files_written_checked', 'extra_removed', 'outdated_rewritten', 'uptodate_kept',
                         'crash_views', 'failpoints_raised', 'syscall_boundaries', 'big_manifest_points', 'subsecond_ctime_cases',
                         'service_loop_checks', 'service_loop_evicted_to_empty', 'service_loop_empty_placement_checked',
-                        'legacy_yaml_replica_cases']}
+                        'legacy_yaml_replica_cases', 'views_while_a_failure_is_handled']}
 
 TOOL = 3
 
@@ -470,6 +470,8 @@ def run(ctx):
                 orig = dict(replace=os.replace, fchmod=os.fchmod, ntf=_tf.NamedTemporaryFile)
 
                 def line_cb(code, line):
+                    if code.co_filename == __file__:
+                        return              # the harness' own statements (global LINE events of pass (c))
                     counter[0] += 1
                     on_point('line:%s:%d' % (code.co_name, line), counter[0])
 
@@ -494,6 +496,7 @@ def run(ctx):
                 finally:
                     for c in codes:
                         mon.set_local_events(TOOL, c, 0)
+                    mon.set_events(TOOL, 0)
                     mon.register_callback(TOOL, mon.events.LINE, None)
                     mon.free_tool_id(TOOL)
                     os.replace, os.fchmod, _tf.NamedTemporaryFile = orig['replace'], orig['fchmod'], orig['ntf']
@@ -602,6 +605,40 @@ def run(ctx):
                 if left:
                     ctx.violation('temp-file-left-after-failed-write', 'I/O error injected at %s left %s behind' % (where, left),
                                   case=dict(case=idx, point=k, where=where))
+            # (c) a failing write seen by a reader: from the instant a syscall of the write path fails until the call
+            # ends, EVERY statement executed anywhere in the process (LINE events switched on globally at the failure)
+            # is a point at which another process - or a crash - reads the directory: what is done about the
+            # failure (clean-up, a retry, a fall-back) must not expose a partial manifest either
+            for k in [k_ for k_ in eligible if points[k_ - 1].startswith('before:')]:
+                reset_target()
+                st = dict(active=False, busy=False, seen=0)
+
+                def fail_then_watch(label, n, k=k, st=st):
+                    if n == k:
+                        st['active'] = True
+                        mon.set_events(TOOL, mon.events.LINE)
+                        raise Injected(5, 'injected I/O error at %s' % label)
+                    if not st['active'] or st['busy'] or n < k or st['seen'] >= 400:
+                        return
+                    st['busy'] = True
+                    try:
+                        st['seen'] += 1
+                        ctx.count('views_while_a_failure_is_handled')
+                        reader_view('while-a-failure-is-handled', 'statement %d after an I/O error injected at %s (%s)' % (
+                            n - k, points[k - 1], label))
+                    finally:
+                        st['busy'] = False
+                try:
+                    with_hooks(fail_then_watch)
+                except Injected:
+                    ctx.count('failpoints_raised')
+                except Exception:      # noqa
+                    pass               # (reported by pass (b))
+                finally:
+                    try:
+                        mon.set_events(TOOL, 0)
+                    except ValueError:
+                        pass           # tool already freed by with_hooks
             ctx.done(evals=total)
         finally:
             shutil.rmtree(root, ignore_errors=True)
